@@ -17,7 +17,7 @@ func init() {
 		Prop:   "C03",
 		Run:    run,
 		Replay: replay,
-		Rule: "E1 over operator chains: every chain o1 op1 o2 ... of the bounded length over all 13 binary operators ('|' between paths), 6 operand kinds and every placement of unary minus; the reference XPath 1.0 parser produces the fully parenthesised form; original and parenthesised form are compiled and run by the real code and must give the same PrintMachine() listing and the same result, and the result must equal the reference value of the reference AST. " +
+		Rule: "E1 over operator chains: every chain o1 op1 o2 ... of the bounded length over all 13 binary operators ('|' between paths), 6 operand kinds and every placement of unary minus (0-3 repetitions per operand in 2-chains, with and without blanks); the reference XPath 1.0 parser produces the fully parenthesised form; original and parenthesised form are compiled and run by the real code and must give the same PrintMachine() listing and the same result, and the result must equal the reference value of the reference AST. " +
 			"Whitespace: for every chain of 3 operands, every token boundary x {removed, blank, tab+newline+blank, CR}, one boundary at a time and all at once (two at a time in the thorough tier); removal only where the reference tokenizer re-lexes the same tokens. Non-trivial = the chain mixes at least two precedence levels or repeats a non-associative-looking operator (-, div, mod, relational, equality).",
 		Bound: map[string]string{
 			"quick":    "chains of 3 operands over 6 operand kinds x 8 unary-minus placements; chains of 4 numeric operands x 16 placements; whitespace variants of all 3-chains over 2 operand kinds; chains inside one function argument",
@@ -309,6 +309,47 @@ func run(c *engine.Ctx) {
 	if !c.Quick() {
 		r.chains(5, numeric, "")
 		r.chains(4, []string{"2", "'3'", "n5"}, "")
+	}
+	// repeated unary minus (0-3 per operand, written with and without blanks)
+	one := func(src string) {
+		if !c.Owns(src) || !c.Case(src) {
+			return
+		}
+		c.Add("states", 1)
+		c.Add("transitions", 1)
+		c.Nontrivial()
+		n, err := xp10.Parse(src)
+		if err != nil {
+			c.Report(engine.Violation{Key: "harness-reference-parse", Witness: src, Detail: err.Error()})
+			return
+		}
+		vs := compare("paren", src, n.FullyParenthesized(), true)
+		c.Outcome(fmt.Sprintf("paren:unary-minus:viol=%v", len(vs) > 0))
+		for _, v := range vs {
+			c.Report(v)
+		}
+	}
+	for _, minus := range []string{"- ", "-"} {
+		for _, a := range operands {
+			for na := 1; na <= 4; na++ {
+				one(strings.Repeat(minus, na) + a)
+				one("string(" + strings.Repeat(minus, na) + a + ")")
+			}
+			for _, b := range operands {
+				for _, o := range ops {
+					for na := 0; na <= 3; na++ {
+						for nb := 0; nb <= 3; nb++ {
+							if c.Expired() {
+								return
+							}
+							if na+nb >= 2 {
+								one(strings.Repeat(minus, na) + a + " " + o + " " + strings.Repeat(minus, nb) + b)
+							}
+						}
+					}
+				}
+			}
+		}
 	}
 	// union between paths binds tighter than everything else
 	for _, o := range ops {
